@@ -280,6 +280,13 @@ impl Scenario for C14 {
             let extra = cx.draw(4);
             for _ in 0..extra {
                 o.push(match cx.draw(5) {
+                    0 | 1 if cx.chance(1, 30) => {
+                        // a long show: dozens of pages in one transfer, overheard by every other sign
+                        cx.probe("transfer_of_30_to_70_pages");
+                        let (w, h) = ty.dimensions();
+                        let n = 30 + cx.draw(41);
+                        ops::Op::SendPages((0..n).map(|_| gens::page(cx, w, h)).collect())
+                    }
                     0 | 1 => ops::Op::SendPages(gens::pages(cx, ty, 2)),
                     2 => ops::Op::Show,
                     3 => ops::Op::LoadNext,
